@@ -69,6 +69,10 @@ def run(rep, tier, props):
             stats['active' if r['active'] else 'inactive'] += 1
         nm = r.get('atom', job.get('kind', '?'))
         per_atom[nm] = per_atom.get(nm, 0) + 1
+        if r['status'] == 'exception' and r.get('exc', '').split(':')[0] in ('NameError', 'UnboundLocalError'):
+            # not a refusal: the library tripped over its own undefined name while encoding an accepted item
+            rep.violation(r['sig'].replace('unexpected-exception', 'internal-error'), dict(r, job={k: v for k, v in job.items()}))
+            continue
         if r['status'] == 'exception':
             # a loud failure is not what C06 is about ("never SILENTLY dropped or replaced"): an exception at st()/min()
             # means the form is not accepted, one at formulation is reported by the C10 check (late rejection)
